@@ -93,6 +93,32 @@ def file_annotate : List (String × List Line) := [
   ("annotateFunc", fn_annotate_annotateFunc)
 ]
 
+/-- cmd/gts/annotate.go: its top-level declarations in source order -/
+def decls_annotate : List String := ["init", "annotateFunc"]
+
+/-- cmd/gts/annotate.go: the types it declares (a struct field by field / another type as `= T`) -/
+def types_annotate : List (String × List String) := []
+
+/-- the library pipeline of `annotate` (what it is: Gts/Gen/CmdFacts.lean) -/
+def pipeline_annotate : List (String × List String) := [
+  ("seqio.INSDCTableParser()", []),
+  ("gts.Feature", []),
+  ("seqio.Detect()", []),
+  ("seqio.ToFileType()", ["if"]),
+  (".TryCache()", ["if"]),
+  ("seqio.NewAutoScanner()", []),
+  ("seqio.NewWriter()", []),
+  (".Scan()", ["for:"]),
+  (".Value()", ["for"]),
+  (".Features()", ["for"]),
+  (".Insert()", ["for", "range"]),
+  ("gts.WithFeatures()", ["for"]),
+  (".WriteSeq()", ["for", "if:"]),
+  (".Flush()", ["for", "if:"]),
+  (".Err()", ["if:"]),
+  (".Commit()", [])
+]
+
 /-- cmd/gts/clear.go `init` -/
 def fn_clear_init : List Line := [
   (0, "func", "()"),   -- `init`
@@ -149,6 +175,31 @@ def file_clear : List (String × List Line) := [
   ("clearFunc", fn_clear_clearFunc)
 ]
 
+/-- cmd/gts/clear.go: its top-level declarations in source order -/
+def decls_clear : List String := ["init", "clearFunc"]
+
+/-- cmd/gts/clear.go: the types it declares (a struct field by field / another type as `= T`) -/
+def types_clear : List (String × List String) := []
+
+/-- the library pipeline of `clear` (what it is: Gts/Gen/CmdFacts.lean) -/
+def pipeline_clear : List (String × List String) := [
+  ("seqio.Detect()", []),
+  ("seqio.ToFileType()", ["if"]),
+  (".TryCache()", ["if"]),
+  ("seqio.NewAutoScanner()", []),
+  ("seqio.NewWriter()", []),
+  (".Scan()", ["for:"]),
+  (".Value()", ["for"]),
+  (".Features()", ["for"]),
+  (".Filter()", ["for"]),
+  ("gts.Key()", ["for"]),
+  ("gts.WithFeatures()", ["for"]),
+  (".WriteSeq()", ["for", "if:"]),
+  (".Flush()", ["for", "if:"]),
+  (".Err()", ["if:"]),
+  (".Commit()", [])
+]
+
 /-- cmd/gts/complement.go `init` -/
 def fn_complement_init : List Line := [
   (0, "func", "()"),   -- `init`
@@ -202,6 +253,28 @@ def fn_complement_complementFunc : List Line := [
 def file_complement : List (String × List Line) := [
   ("init", fn_complement_init),
   ("complementFunc", fn_complement_complementFunc)
+]
+
+/-- cmd/gts/complement.go: its top-level declarations in source order -/
+def decls_complement : List String := ["init", "complementFunc"]
+
+/-- cmd/gts/complement.go: the types it declares (a struct field by field / another type as `= T`) -/
+def types_complement : List (String × List String) := []
+
+/-- the library pipeline of `complement` (what it is: Gts/Gen/CmdFacts.lean) -/
+def pipeline_complement : List (String × List String) := [
+  ("seqio.Detect()", []),
+  ("seqio.ToFileType()", ["if"]),
+  (".TryCache()", ["if"]),
+  ("seqio.NewAutoScanner()", []),
+  ("seqio.NewWriter()", []),
+  (".Scan()", ["for:"]),
+  (".Value()", ["for"]),
+  ("gts.Complement()", ["for"]),
+  (".WriteSeq()", ["for", "if:"]),
+  (".Flush()", ["if:"]),
+  (".Err()", ["if:"]),
+  (".Commit()", [])
 ]
 
 /-- cmd/gts/define.go `init` -/
@@ -274,6 +347,33 @@ def file_define : List (String × List Line) := [
   ("defineFunc", fn_define_defineFunc)
 ]
 
+/-- cmd/gts/define.go: its top-level declarations in source order -/
+def decls_define : List String := ["init", "defineFunc"]
+
+/-- cmd/gts/define.go: the types it declares (a struct field by field / another type as `= T`) -/
+def types_define : List (String × List String) := []
+
+/-- the library pipeline of `define` (what it is: Gts/Gen/CmdFacts.lean) -/
+def pipeline_define : List (String × List String) := [
+  ("gts.AsLocation()", []),
+  ("seqio.Detect()", []),
+  ("seqio.ToFileType()", ["if"]),
+  ("gts.Props", []),
+  ("gts.NewFeature()", []),
+  (".TryCache()", ["if"]),
+  ("seqio.NewAutoScanner()", []),
+  ("seqio.NewWriter()", []),
+  (".Scan()", ["for:"]),
+  (".Value()", ["for"]),
+  (".Features()", ["for"]),
+  (".Insert()", ["for"]),
+  ("gts.WithFeatures()", ["for"]),
+  (".WriteSeq()", ["for", "if:"]),
+  (".Flush()", ["for", "if:"]),
+  (".Err()", ["if:"]),
+  (".Commit()", [])
+]
+
 /-- cmd/gts/join.go `init` -/
 def fn_join_init : List Line := [
   (0, "func", "()"),   -- `init`
@@ -330,6 +430,30 @@ def file_join : List (String × List Line) := [
   ("joinFunc", fn_join_joinFunc)
 ]
 
+/-- cmd/gts/join.go: its top-level declarations in source order -/
+def decls_join : List String := ["init", "joinFunc"]
+
+/-- cmd/gts/join.go: the types it declares (a struct field by field / another type as `= T`) -/
+def types_join : List (String × List String) := []
+
+/-- the library pipeline of `join` (what it is: Gts/Gen/CmdFacts.lean) -/
+def pipeline_join : List (String × List String) := [
+  ("seqio.Detect()", []),
+  ("seqio.ToFileType()", ["if"]),
+  (".TryCache()", ["if"]),
+  ("gts.Sequence", []),
+  ("seqio.NewAutoScanner()", []),
+  (".Scan()", ["for:"]),
+  (".Value()", ["for"]),
+  ("gts.Concat()", []),
+  ("gts.WithTopology()", ["if"]),
+  ("gts.Circular", ["if"]),
+  ("seqio.NewWriter()", []),
+  (".WriteSeq()", ["if:"]),
+  (".Err()", ["if:"]),
+  (".Commit()", [])
+]
+
 /-- cmd/gts/length.go `init` -/
 def fn_length_init : List Line := [
   (0, "func", "()"),   -- `init`
@@ -378,6 +502,22 @@ def fn_length_lengthFunc : List Line := [
 def file_length : List (String × List Line) := [
   ("init", fn_length_init),
   ("lengthFunc", fn_length_lengthFunc)
+]
+
+/-- cmd/gts/length.go: its top-level declarations in source order -/
+def decls_length : List String := ["init", "lengthFunc"]
+
+/-- cmd/gts/length.go: the types it declares (a struct field by field / another type as `= T`) -/
+def types_length : List (String × List String) := []
+
+/-- the library pipeline of `length` (what it is: Gts/Gen/CmdFacts.lean) -/
+def pipeline_length : List (String × List String) := [
+  ("seqio.NewAutoScanner()", []),
+  (".Scan()", ["for:"]),
+  (".Value()", ["for"]),
+  ("gts.Len()", ["for"]),
+  (".Flush()", ["for", "if:"]),
+  (".Err()", ["if:"])
 ]
 
 /-- cmd/gts/pick.go `init` -/
@@ -567,6 +707,32 @@ def file_pick : List (String × List Line) := [
   ("pickFunc", fn_pick_pickFunc)
 ]
 
+/-- cmd/gts/pick.go: its top-level declarations in source order -/
+def decls_pick : List String := ["init", "type picker", "pickAll", "pickAny", "pickAfter", "pickBefore", "pickBetween", "pickOne", "mustAtoi", "asPicker", "pickFunc"]
+
+/-- cmd/gts/pick.go: the types it declares (a struct field by field / another type as `= T`) -/
+def types_pick : List (String × List String) := [
+  ("picker", ["= func(int) bool"])
+]
+
+/-- the library pipeline of `pick` (what it is: Gts/Gen/CmdFacts.lean) -/
+def pipeline_pick : List (String × List String) := [
+  ("seqio.Detect()", []),
+  ("seqio.ToFileType()", ["if"]),
+  (".TryCache()", ["if"]),
+  ("seqio.NewAutoScanner()", []),
+  ("seqio.NewWriter()", []),
+  (".Scan()", ["for:"]),
+  (".Value()", ["for"]),
+  (".Features()", ["for", "if", "if"]),
+  ("gts.Feature", ["for", "if", "if"]),
+  ("gts.WithFeatures()", ["for", "if", "if"]),
+  (".WriteSeq()", ["for", "if", "if:"]),
+  (".Flush()", ["for", "if", "if:"]),
+  (".Err()", ["if:"]),
+  (".Commit()", [])
+]
+
 /-- cmd/gts/query.go `init` -/
 def fn_query_init : List Line := [
   (0, "func", "()"),   -- `init`
@@ -710,6 +876,26 @@ def file_query : List (String × List Line) := [
   ("queryFunc", fn_query_queryFunc)
 ]
 
+/-- cmd/gts/query.go: its top-level declarations in source order -/
+def decls_query : List String := ["init", "formatCSV", "queryFunc"]
+
+/-- cmd/gts/query.go: the types it declares (a struct field by field / another type as `= T`) -/
+def types_query : List (String × List String) := []
+
+/-- the library pipeline of `query` (what it is: Gts/Gen/CmdFacts.lean) -/
+def pipeline_query : List (String × List String) := [
+  (".TryCache()", ["if"]),
+  ("gts.Feature", []),
+  ("seqio.NewAutoScanner()", []),
+  (".Scan()", ["for:"]),
+  (".Value()", ["for"]),
+  (".Info()", ["for", "typeswitch:"]),
+  (".Features()", ["for"]),
+  (".Flush()", ["range", "if:"]),
+  (".Err()", ["if:"]),
+  (".Commit()", [])
+]
+
 /-- cmd/gts/repair.go `init` -/
 def fn_repair_init : List Line := [
   (0, "func", "()"),   -- `init`
@@ -767,6 +953,30 @@ def file_repair : List (String × List Line) := [
   ("repairFunc", fn_repair_repairFunc)
 ]
 
+/-- cmd/gts/repair.go: its top-level declarations in source order -/
+def decls_repair : List String := ["init", "repairFunc"]
+
+/-- cmd/gts/repair.go: the types it declares (a struct field by field / another type as `= T`) -/
+def types_repair : List (String × List String) := []
+
+/-- the library pipeline of `repair` (what it is: Gts/Gen/CmdFacts.lean) -/
+def pipeline_repair : List (String × List String) := [
+  ("seqio.Detect()", []),
+  ("seqio.ToFileType()", ["if"]),
+  (".TryCache()", ["if"]),
+  ("seqio.NewAutoScanner()", []),
+  ("seqio.NewWriter()", []),
+  (".Scan()", ["for:"]),
+  (".Value()", ["for"]),
+  (".Features()", ["for"]),
+  ("gts.Repair()", ["for"]),
+  ("gts.WithFeatures()", ["for"]),
+  (".WriteSeq()", ["for", "if:"]),
+  (".Flush()", ["for", "if:"]),
+  (".Err()", ["if:"]),
+  (".Commit()", [])
+]
+
 /-- cmd/gts/reverse.go `init` -/
 def fn_reverse_init : List Line := [
   (0, "func", "()"),   -- `init`
@@ -820,6 +1030,28 @@ def fn_reverse_reverseFunc : List Line := [
 def file_reverse : List (String × List Line) := [
   ("init", fn_reverse_init),
   ("reverseFunc", fn_reverse_reverseFunc)
+]
+
+/-- cmd/gts/reverse.go: its top-level declarations in source order -/
+def decls_reverse : List String := ["init", "reverseFunc"]
+
+/-- cmd/gts/reverse.go: the types it declares (a struct field by field / another type as `= T`) -/
+def types_reverse : List (String × List String) := []
+
+/-- the library pipeline of `reverse` (what it is: Gts/Gen/CmdFacts.lean) -/
+def pipeline_reverse : List (String × List String) := [
+  ("seqio.Detect()", []),
+  ("seqio.ToFileType()", ["if"]),
+  (".TryCache()", ["if"]),
+  ("seqio.NewAutoScanner()", []),
+  ("seqio.NewWriter()", []),
+  (".Scan()", ["for:"]),
+  (".Value()", ["for"]),
+  ("gts.Reverse()", ["for"]),
+  (".WriteSeq()", ["for", "if:"]),
+  (".Flush()", ["for", "if:"]),
+  (".Err()", ["if:"]),
+  (".Commit()", [])
 ]
 
 /-- cmd/gts/search.go `init` -/
@@ -929,6 +1161,53 @@ def file_search : List (String × List Line) := [
   ("searchFunc", fn_search_searchFunc)
 ]
 
+/-- cmd/gts/search.go: its top-level declarations in source order -/
+def decls_search : List String := ["init", "searchFunc"]
+
+/-- cmd/gts/search.go: the types it declares (a struct field by field / another type as `= T`) -/
+def types_search : List (String × List String) := []
+
+/-- the library pipeline of `search` (what it is: Gts/Gen/CmdFacts.lean) -/
+def pipeline_search : List (String × List String) := [
+  ("gts.Sequence", []),
+  ("gts.New()", ["switch", "case"]),
+  ("seqio.NewAutoScanner()", ["switch", "default"]),
+  (".Scan()", ["switch", "default", "for:"]),
+  (".Value()", ["switch", "default", "for"]),
+  ("seqio.Detect()", []),
+  ("seqio.ToFileType()", ["if"]),
+  ("gts.Props", []),
+  (".TryCache()", ["if"]),
+  ("gts.Match", []),
+  ("gts.Search", ["if"]),
+  ("seqio.NewAutoScanner()", []),
+  ("seqio.NewWriter()", []),
+  (".Scan()", ["for:"]),
+  (".Value()", ["for"]),
+  ("gts.Reverse()", ["for"]),
+  ("gts.Complement()", ["for"]),
+  ("gts.New()", ["for"]),
+  (".Bytes()", ["for"]),
+  (".Features()", ["for"]),
+  ("gts.Unpack()", ["for", "range", "range"]),
+  ("gts.NewFeature()", ["for", "range", "range"]),
+  ("gts.Range()", ["for", "range", "range"]),
+  (".Insert()", ["for", "range", "range"]),
+  ("gts.Unpack()", ["for", "range", "if", "range"]),
+  ("gts.Range()", ["for", "range", "if", "range"]),
+  (".Reverse()", ["for", "range", "if", "range"]),
+  ("gts.Len()", ["for", "range", "if", "range"]),
+  ("gts.Ranged", ["for", "range", "if", "range"]),
+  ("gts.NewFeature()", ["for", "range", "if", "range"]),
+  (".Complement()", ["for", "range", "if", "range"]),
+  (".Insert()", ["for", "range", "if", "range"]),
+  ("gts.WithFeatures()", ["for"]),
+  (".WriteSeq()", ["for", "if:"]),
+  (".Flush()", ["for", "if:"]),
+  (".Err()", ["if:"]),
+  (".Commit()", [])
+]
+
 /-- cmd/gts/select.go `init` -/
 def fn_select_init : List Line := [
   (0, "func", "()"),   -- `init`
@@ -1003,6 +1282,40 @@ def fn_select_selectFunc : List Line := [
 def file_select : List (String × List Line) := [
   ("init", fn_select_init),
   ("selectFunc", fn_select_selectFunc)
+]
+
+/-- cmd/gts/select.go: its top-level declarations in source order -/
+def decls_select : List String := ["init", "selectFunc"]
+
+/-- cmd/gts/select.go: the types it declares (a struct field by field / another type as `= T`) -/
+def types_select : List (String × List String) := []
+
+/-- the library pipeline of `select` (what it is: Gts/Gen/CmdFacts.lean) -/
+def pipeline_select : List (String × List String) := [
+  ("gts.Filter", []),
+  ("gts.Selector()", ["range"]),
+  ("gts.Or()", []),
+  ("gts.Not()", ["if"]),
+  ("gts.Or()", []),
+  ("gts.Key()", []),
+  ("gts.And()", ["switch", "case"]),
+  ("gts.ForwardStrand", ["switch", "case"]),
+  ("gts.And()", ["switch", "case"]),
+  ("gts.ReverseStrand", ["switch", "case"]),
+  ("seqio.Detect()", []),
+  ("seqio.ToFileType()", ["if"]),
+  (".TryCache()", ["if"]),
+  ("seqio.NewAutoScanner()", []),
+  ("seqio.NewWriter()", []),
+  (".Scan()", ["for:"]),
+  (".Value()", ["for"]),
+  (".Features()", ["for"]),
+  (".Filter()", ["for"]),
+  ("gts.WithFeatures()", ["for"]),
+  (".WriteSeq()", ["for", "if:"]),
+  (".Flush()", ["for", "if:"]),
+  (".Err()", ["if:"]),
+  (".Commit()", [])
 ]
 
 /-- cmd/gts/sort.go `init` -/
@@ -1087,6 +1400,31 @@ def file_sort : List (String × List Line) := [
   ("byLength.Less", fn_sort_byLength_Less),
   ("byLength.Swap", fn_sort_byLength_Swap),
   ("sortFunc", fn_sort_sortFunc)
+]
+
+/-- cmd/gts/sort.go: its top-level declarations in source order -/
+def decls_sort : List String := ["init", "type byLength", "byLength.Len", "byLength.Less", "byLength.Swap", "sortFunc"]
+
+/-- cmd/gts/sort.go: the types it declares (a struct field by field / another type as `= T`) -/
+def types_sort : List (String × List String) := [
+  ("byLength", ["= []gts.Sequence"])
+]
+
+/-- the library pipeline of `sort` (what it is: Gts/Gen/CmdFacts.lean) -/
+def pipeline_sort : List (String × List String) := [
+  ("seqio.Detect()", []),
+  ("seqio.ToFileType()", ["if"]),
+  (".TryCache()", ["if"]),
+  ("gts.Sequence", []),
+  ("seqio.NewAutoScanner()", []),
+  (".Scan()", ["for:"]),
+  (".Value()", ["for"]),
+  (".Reverse()", ["if"]),
+  ("seqio.NewWriter()", []),
+  (".WriteSeq()", ["range", "if:"]),
+  (".Flush()", ["range", "if:"]),
+  (".Err()", ["if:"]),
+  (".Commit()", [])
 ]
 
 /-- cmd/gts/summary.go `init` -/
@@ -1225,34 +1563,220 @@ def file_summary : List (String × List Line) := [
   ("summaryFunc", fn_summary_summaryFunc)
 ]
 
-/-- the inventory of cmd/gts: (file, how it is tied — `facts`: every function in normal form here; `gcli`: the
-per-record step regenerated by go2lean/gcli_cmds.go; `iodelegate`: go2lean/iodelegate.go; `untied`; `new`: a file
-the generator does not know —, its top-level declarations in source order) -/
+/-- cmd/gts/summary.go: its top-level declarations in source order -/
+def decls_summary : List String := ["init", "type pairStringInt", "type byValue", "byValue.Len", "byValue.Less", "byValue.Swap", "summaryFunc"]
+
+/-- cmd/gts/summary.go: the types it declares (a struct field by field / another type as `= T`) -/
+def types_summary : List (String × List String) := [
+  ("pairStringInt", ["Key string", "Value int"]),
+  ("byValue", ["= []pairStringInt"])
+]
+
+/-- the library pipeline of `summary` (what it is: Gts/Gen/CmdFacts.lean) -/
+def pipeline_summary : List (String × List String) := [
+  (".TryCache()", ["if"]),
+  ("seqio.NewAutoScanner()", []),
+  (".Scan()", ["for:"]),
+  (".Value()", ["for"]),
+  (".Info()", ["for", "typeswitch:"]),
+  (".Bytes()", ["for", "range:"]),
+  (".Features()", ["for"]),
+  ("gts.Len()", ["for"]),
+  (".Flush()", ["for", "if:"]),
+  (".Err()", ["if:"]),
+  (".Commit()", [])
+]
+
+/-- the library pipeline of the multi-site command `delete` (its per-record step is regenerated as a function by
+go2lean/gcli_cmds.go, C15; here: the frame around it) -/
+def pipeline_delete : List (String × List String) := [
+  ("gts.AsLocator()", []),
+  ("seqio.Detect()", []),
+  ("seqio.ToFileType()", ["if"]),
+  ("gts.Delete", []),
+  ("gts.Erase", ["if"]),
+  (".TryCache()", ["if"]),
+  ("seqio.NewAutoScanner()", []),
+  ("seqio.NewWriter()", []),
+  (".Scan()", ["for:"]),
+  (".Value()", ["for"]),
+  ("gts.Minimize()", ["for"]),
+  ("gts.BySegment()", ["for"]),
+  (".Head()", ["for", "range"]),
+  (".Len()", ["for", "range"]),
+  (".WriteSeq()", ["for", "if:"]),
+  (".Flush()", ["for", "if:"]),
+  (".Err()", ["if:"]),
+  (".Commit()", [])
+]
+
+/-- the library pipeline of the multi-site command `extract` (its per-record step is regenerated as a function by
+go2lean/gcli_cmds.go, C15; here: the frame around it) -/
+def pipeline_extract : List (String × List String) := [
+  ("seqio.Detect()", []),
+  ("seqio.ToFileType()", ["if"]),
+  ("gts.Locator", []),
+  ("gts.AsLocator()", ["range"]),
+  (".TryCache()", ["if"]),
+  ("seqio.NewAutoScanner()", []),
+  ("seqio.NewWriter()", []),
+  (".Scan()", ["for:"]),
+  (".Value()", ["for"]),
+  ("gts.Region", ["for"]),
+  ("gts.InvertLinear()", ["for", "if"]),
+  ("gts.Regions()", ["for", "if"]),
+  ("gts.Len()", ["for", "if"]),
+  (".Len()", ["for", "range", "if:"]),
+  ("gts.Len()", ["for", "range", "if:"]),
+  (".Locate()", ["for", "range", "if"]),
+  (".WriteSeq()", ["for", "range", "if", "if:"]),
+  (".Flush()", ["for", "range", "if", "if:"]),
+  (".Err()", ["if:"]),
+  (".Commit()", [])
+]
+
+/-- the library pipeline of the multi-site command `infix` (its per-record step is regenerated as a function by
+go2lean/gcli_cmds.go, C15; here: the frame around it) -/
+def pipeline_infix : List (String × List String) := [
+  ("gts.AsLocator()", []),
+  ("gts.Sequence", []),
+  ("seqio.NewAutoScanner()", []),
+  (".Scan()", ["for:"]),
+  (".Value()", ["for"]),
+  ("seqio.Detect()", []),
+  ("seqio.ToFileType()", ["if"]),
+  ("gts.Insert", []),
+  ("gts.Embed", ["if"]),
+  (".TryCache()", ["if"]),
+  ("seqio.NewAutoScanner()", []),
+  ("seqio.NewWriter()", []),
+  (".Scan()", ["for:"]),
+  (".Value()", ["for"]),
+  (".Head()", ["for", "range", "range"]),
+  (".Reverse()", ["for", "range"]),
+  ("gts.Sequence()", ["for", "range"]),
+  ("gts.Copy()", ["for", "range"]),
+  (".WriteSeq()", ["for", "range", "if:"]),
+  (".Flush()", ["for", "range", "if:"]),
+  (".Err()", ["if:"]),
+  (".Commit()", [])
+]
+
+/-- the library pipeline of the multi-site command `insert` (its per-record step is regenerated as a function by
+go2lean/gcli_cmds.go, C15; here: the frame around it) -/
+def pipeline_insert : List (String × List String) := [
+  ("gts.AsLocator()", []),
+  ("gts.Sequence", []),
+  ("gts.New()", ["switch", "case"]),
+  ("seqio.NewAutoScanner()", ["switch", "default"]),
+  (".Scan()", ["switch", "default", "for:"]),
+  (".Value()", ["switch", "default", "for"]),
+  ("seqio.Detect()", []),
+  ("seqio.ToFileType()", ["if"]),
+  ("gts.Insert", []),
+  ("gts.Embed", ["if"]),
+  (".TryCache()", ["if"]),
+  ("seqio.NewAutoScanner()", []),
+  ("seqio.NewWriter()", []),
+  (".Scan()", ["for:"]),
+  (".Value()", ["for"]),
+  (".Head()", ["for", "range"]),
+  (".Reverse()", ["for"]),
+  ("gts.Sequence()", ["for", "range"]),
+  ("gts.Copy()", ["for", "range"]),
+  (".WriteSeq()", ["for", "range", "if:"]),
+  (".Flush()", ["for", "range", "if:"]),
+  (".Err()", ["if:"]),
+  (".Commit()", [])
+]
+
+/-- the library pipeline of the multi-site command `rotate` (its per-record step is regenerated as a function by
+go2lean/gcli_cmds.go, C15; here: the frame around it) -/
+def pipeline_rotate : List (String × List String) := [
+  ("gts.AsLocator()", []),
+  ("seqio.Detect()", []),
+  ("seqio.ToFileType()", ["if"]),
+  (".TryCache()", ["if"]),
+  ("seqio.NewAutoScanner()", []),
+  ("seqio.NewWriter()", []),
+  (".Scan()", ["for:"]),
+  (".Value()", ["for"]),
+  ("gts.Rotate()", ["for", "if"]),
+  (".Head()", ["for", "if"]),
+  ("gts.WithTopology()", ["for"]),
+  ("gts.Circular", ["for"]),
+  (".WriteSeq()", ["for", "if:"]),
+  (".Flush()", ["for", "if:"]),
+  (".Err()", ["if:"]),
+  (".Commit()", [])
+]
+
+/-- the library pipeline of the multi-site command `split` (its per-record step is regenerated as a function by
+go2lean/gcli_cmds.go, C15; here: the frame around it) -/
+def pipeline_split : List (String × List String) := [
+  ("gts.AsLocator()", []),
+  ("seqio.Detect()", []),
+  ("seqio.ToFileType()", ["if"]),
+  (".TryCache()", ["if"]),
+  ("seqio.NewAutoScanner()", []),
+  ("seqio.NewWriter()", []),
+  (".Scan()", ["for:"]),
+  (".Value()", ["for"]),
+  ("gts.Linear", ["for"]),
+  (".WriteSeq()", ["for", "switch", "case", "if:"]),
+  ("gts.Circular", ["for", "switch"]),
+  ("gts.Rotate()", ["for", "switch", "case"]),
+  (".Head()", ["for", "switch", "case"]),
+  ("gts.WithTopology()", ["for", "switch", "case"]),
+  ("gts.Linear", ["for", "switch", "case"]),
+  (".WriteSeq()", ["for", "switch", "case", "if:"]),
+  (".Head()", ["for", "switch", "default", "range"]),
+  (".Tail()", ["for", "switch", "default", "range"]),
+  ("gts.Circular", ["for", "switch", "default", "if:"]),
+  ("gts.Rotate()", ["for", "switch", "default", "if"]),
+  ("gts.WithTopology()", ["for", "switch", "default", "if"]),
+  ("gts.Linear", ["for", "switch", "default", "if"]),
+  (".WriteSeq()", ["for", "switch", "default", "if", "if:"]),
+  ("gts.Circular", ["for", "switch", "default", "if:"]),
+  ("gts.Len()", ["for", "switch", "default", "else"]),
+  ("gts.Slice()", ["for", "switch", "default", "range"]),
+  ("gts.WithTopology()", ["for", "switch", "default", "range"]),
+  ("gts.Linear", ["for", "switch", "default", "range"]),
+  (".WriteSeq()", ["for", "switch", "default", "range", "if:"]),
+  (".Flush()", ["for", "if:"]),
+  (".Err()", ["if:"]),
+  (".Commit()", [])
+]
+
+/-- the inventory of cmd/gts: (file, how it is tied — `facts`: every function in normal form here, declarations in
+`decls_<file>`; `gcli`: the per-record step regenerated by go2lean/gcli_cmds.go; `iodelegate`: go2lean/iodelegate.go;
+`untied`; `new`: a file the generator does not know —, for a file that is not `facts` its top-level declarations in
+source order) -/
 def files : List (String × String × List String) := [
-  ("annotate.go", "facts", ["init", "annotateFunc"]),
+  ("annotate.go", "facts", []),
   ("cache.go", "untied", ["init", "cacheListFunc", "cachePathFunc", "cachePurgeFunc"]),
-  ("clear.go", "facts", ["init", "clearFunc"]),
-  ("complement.go", "facts", ["init", "complementFunc"]),
-  ("define.go", "facts", ["init", "defineFunc"]),
+  ("clear.go", "facts", []),
+  ("complement.go", "facts", []),
+  ("define.go", "facts", []),
   ("delete.go", "gcli", ["init", "deleteFunc"]),
   ("extract.go", "gcli", ["init", "containsRegion", "extractFunc"]),
   ("hash.go", "untied", ["newHash", "encodeToString"]),
   ("infix.go", "gcli", ["init", "infixFunc"]),
   ("insert.go", "gcli", ["init", "insertFunc"]),
   ("io.go", "iodelegate", ["type attachment", "attachment.Read", "attach", "type tuple", "exact", "encodePayload", "gtsCacheDir", "type ioDelegate", "ioDelegate.Commit", "newIODelegate", "ioDelegate.Read", "ioDelegate.Write", "ioDelegate.TryCache", "ioDelegate.Close"]),
-  ("join.go", "facts", ["init", "joinFunc"]),
-  ("length.go", "facts", ["init", "lengthFunc"]),
+  ("join.go", "facts", []),
+  ("length.go", "facts", []),
   ("main.go", "untied", ["main"]),
-  ("pick.go", "facts", ["init", "type picker", "pickAll", "pickAny", "pickAfter", "pickBefore", "pickBetween", "pickOne", "mustAtoi", "asPicker", "pickFunc"]),
-  ("query.go", "facts", ["init", "formatCSV", "queryFunc"]),
-  ("repair.go", "facts", ["init", "repairFunc"]),
-  ("reverse.go", "facts", ["init", "reverseFunc"]),
+  ("pick.go", "facts", []),
+  ("query.go", "facts", []),
+  ("repair.go", "facts", []),
+  ("reverse.go", "facts", []),
   ("rotate.go", "gcli", ["init", "rotateFunc"]),
-  ("search.go", "facts", ["init", "searchFunc"]),
-  ("select.go", "facts", ["init", "selectFunc"]),
-  ("sort.go", "facts", ["init", "type byLength", "byLength.Len", "byLength.Less", "byLength.Swap", "sortFunc"]),
+  ("search.go", "facts", []),
+  ("select.go", "facts", []),
+  ("sort.go", "facts", []),
   ("split.go", "gcli", ["init", "splitFunc"]),
-  ("summary.go", "facts", ["init", "type pairStringInt", "type byValue", "byValue.Len", "byValue.Less", "byValue.Swap", "summaryFunc"])
+  ("summary.go", "facts", [])
 ]
 
 /-- the `flags.Register(name, help, fn)` calls of the `init` functions: (file, command name, command function) -/
@@ -1278,409 +1802,6 @@ def registered : List (String × String × String) := [
   ("sort.go", "sort", "sortFunc"),
   ("split.go", "split", "splitFunc"),
   ("summary.go", "summary", "summaryFunc")
-]
-
-/-- the types the `facts` files declare: (file, type, a struct field by field / another type as `= T`) -/
-def types : List (String × String × List String) := [
-  ("pick.go", "picker", ["= func(int) bool"]),
-  ("sort.go", "byLength", ["= []gts.Sequence"]),
-  ("summary.go", "pairStringInt", ["Key string", "Value int"]),
-  ("summary.go", "byValue", ["= []pairStringInt"])
-]
-
-/-- the LIBRARY PIPELINE of the command function of every command (the six `gcli` ones included): every call of a
-function or value of package `gts` / `seqio` and every method call on a value (`.Features()`, `.Filter(…)`, `.Insert(…)`,
-`.WriteSeq(…)`, `.Scan()` …) in source order, each with the KINDS of the headers it stands under (`if`, `for`, `range`,
-`switch`, `case`, `else` …).  No variable name and no line number occurs in it: a rewrite of the option handling or of
-the error paths keeps it, a library call that is added, dropped, replaced or moved under / out of a condition or a loop
-changes it. -/
-def pipeline : List (String × List (String × List String)) := [
-  ("annotate/annotateFunc", [
-    ("seqio.INSDCTableParser()", []),
-    ("gts.Feature", []),
-    ("seqio.Detect()", []),
-    ("seqio.ToFileType()", ["if"]),
-    (".TryCache()", ["if"]),
-    ("seqio.NewAutoScanner()", []),
-    ("seqio.NewWriter()", []),
-    (".Scan()", ["for:"]),
-    (".Value()", ["for"]),
-    (".Features()", ["for"]),
-    (".Insert()", ["for", "range"]),
-    ("gts.WithFeatures()", ["for"]),
-    (".WriteSeq()", ["for", "if:"]),
-    (".Flush()", ["for", "if:"]),
-    (".Err()", ["if:"]),
-    (".Commit()", [])
-  ]),
-  ("clear/clearFunc", [
-    ("seqio.Detect()", []),
-    ("seqio.ToFileType()", ["if"]),
-    (".TryCache()", ["if"]),
-    ("seqio.NewAutoScanner()", []),
-    ("seqio.NewWriter()", []),
-    (".Scan()", ["for:"]),
-    (".Value()", ["for"]),
-    (".Features()", ["for"]),
-    (".Filter()", ["for"]),
-    ("gts.Key()", ["for"]),
-    ("gts.WithFeatures()", ["for"]),
-    (".WriteSeq()", ["for", "if:"]),
-    (".Flush()", ["for", "if:"]),
-    (".Err()", ["if:"]),
-    (".Commit()", [])
-  ]),
-  ("complement/complementFunc", [
-    ("seqio.Detect()", []),
-    ("seqio.ToFileType()", ["if"]),
-    (".TryCache()", ["if"]),
-    ("seqio.NewAutoScanner()", []),
-    ("seqio.NewWriter()", []),
-    (".Scan()", ["for:"]),
-    (".Value()", ["for"]),
-    ("gts.Complement()", ["for"]),
-    (".WriteSeq()", ["for", "if:"]),
-    (".Flush()", ["if:"]),
-    (".Err()", ["if:"]),
-    (".Commit()", [])
-  ]),
-  ("define/defineFunc", [
-    ("gts.AsLocation()", []),
-    ("seqio.Detect()", []),
-    ("seqio.ToFileType()", ["if"]),
-    ("gts.Props", []),
-    ("gts.NewFeature()", []),
-    (".TryCache()", ["if"]),
-    ("seqio.NewAutoScanner()", []),
-    ("seqio.NewWriter()", []),
-    (".Scan()", ["for:"]),
-    (".Value()", ["for"]),
-    (".Features()", ["for"]),
-    (".Insert()", ["for"]),
-    ("gts.WithFeatures()", ["for"]),
-    (".WriteSeq()", ["for", "if:"]),
-    (".Flush()", ["for", "if:"]),
-    (".Err()", ["if:"]),
-    (".Commit()", [])
-  ]),
-  ("delete/deleteFunc", [
-    ("gts.AsLocator()", []),
-    ("seqio.Detect()", []),
-    ("seqio.ToFileType()", ["if"]),
-    ("gts.Delete", []),
-    ("gts.Erase", ["if"]),
-    (".TryCache()", ["if"]),
-    ("seqio.NewAutoScanner()", []),
-    ("seqio.NewWriter()", []),
-    (".Scan()", ["for:"]),
-    (".Value()", ["for"]),
-    ("gts.Minimize()", ["for"]),
-    ("gts.BySegment()", ["for"]),
-    (".Head()", ["for", "range"]),
-    (".Len()", ["for", "range"]),
-    (".WriteSeq()", ["for", "if:"]),
-    (".Flush()", ["for", "if:"]),
-    (".Err()", ["if:"]),
-    (".Commit()", [])
-  ]),
-  ("extract/extractFunc", [
-    ("seqio.Detect()", []),
-    ("seqio.ToFileType()", ["if"]),
-    ("gts.Locator", []),
-    ("gts.AsLocator()", ["range"]),
-    (".TryCache()", ["if"]),
-    ("seqio.NewAutoScanner()", []),
-    ("seqio.NewWriter()", []),
-    (".Scan()", ["for:"]),
-    (".Value()", ["for"]),
-    ("gts.Region", ["for"]),
-    ("gts.InvertLinear()", ["for", "if"]),
-    ("gts.Regions()", ["for", "if"]),
-    ("gts.Len()", ["for", "if"]),
-    (".Len()", ["for", "range", "if:"]),
-    ("gts.Len()", ["for", "range", "if:"]),
-    (".Locate()", ["for", "range", "if"]),
-    (".WriteSeq()", ["for", "range", "if", "if:"]),
-    (".Flush()", ["for", "range", "if", "if:"]),
-    (".Err()", ["if:"]),
-    (".Commit()", [])
-  ]),
-  ("infix/infixFunc", [
-    ("gts.AsLocator()", []),
-    ("gts.Sequence", []),
-    ("seqio.NewAutoScanner()", []),
-    (".Scan()", ["for:"]),
-    (".Value()", ["for"]),
-    ("seqio.Detect()", []),
-    ("seqio.ToFileType()", ["if"]),
-    ("gts.Insert", []),
-    ("gts.Embed", ["if"]),
-    (".TryCache()", ["if"]),
-    ("seqio.NewAutoScanner()", []),
-    ("seqio.NewWriter()", []),
-    (".Scan()", ["for:"]),
-    (".Value()", ["for"]),
-    (".Head()", ["for", "range", "range"]),
-    (".Reverse()", ["for", "range"]),
-    ("gts.Sequence()", ["for", "range"]),
-    ("gts.Copy()", ["for", "range"]),
-    (".WriteSeq()", ["for", "range", "if:"]),
-    (".Flush()", ["for", "range", "if:"]),
-    (".Err()", ["if:"]),
-    (".Commit()", [])
-  ]),
-  ("insert/insertFunc", [
-    ("gts.AsLocator()", []),
-    ("gts.Sequence", []),
-    ("gts.New()", ["switch", "case"]),
-    ("seqio.NewAutoScanner()", ["switch", "default"]),
-    (".Scan()", ["switch", "default", "for:"]),
-    (".Value()", ["switch", "default", "for"]),
-    ("seqio.Detect()", []),
-    ("seqio.ToFileType()", ["if"]),
-    ("gts.Insert", []),
-    ("gts.Embed", ["if"]),
-    (".TryCache()", ["if"]),
-    ("seqio.NewAutoScanner()", []),
-    ("seqio.NewWriter()", []),
-    (".Scan()", ["for:"]),
-    (".Value()", ["for"]),
-    (".Head()", ["for", "range"]),
-    (".Reverse()", ["for"]),
-    ("gts.Sequence()", ["for", "range"]),
-    ("gts.Copy()", ["for", "range"]),
-    (".WriteSeq()", ["for", "range", "if:"]),
-    (".Flush()", ["for", "range", "if:"]),
-    (".Err()", ["if:"]),
-    (".Commit()", [])
-  ]),
-  ("join/joinFunc", [
-    ("seqio.Detect()", []),
-    ("seqio.ToFileType()", ["if"]),
-    (".TryCache()", ["if"]),
-    ("gts.Sequence", []),
-    ("seqio.NewAutoScanner()", []),
-    (".Scan()", ["for:"]),
-    (".Value()", ["for"]),
-    ("gts.Concat()", []),
-    ("gts.WithTopology()", ["if"]),
-    ("gts.Circular", ["if"]),
-    ("seqio.NewWriter()", []),
-    (".WriteSeq()", ["if:"]),
-    (".Err()", ["if:"]),
-    (".Commit()", [])
-  ]),
-  ("length/lengthFunc", [
-    ("seqio.NewAutoScanner()", []),
-    (".Scan()", ["for:"]),
-    (".Value()", ["for"]),
-    ("gts.Len()", ["for"]),
-    (".Flush()", ["for", "if:"]),
-    (".Err()", ["if:"])
-  ]),
-  ("pick/pickFunc", [
-    ("seqio.Detect()", []),
-    ("seqio.ToFileType()", ["if"]),
-    (".TryCache()", ["if"]),
-    ("seqio.NewAutoScanner()", []),
-    ("seqio.NewWriter()", []),
-    (".Scan()", ["for:"]),
-    (".Value()", ["for"]),
-    (".Features()", ["for", "if", "if"]),
-    ("gts.Feature", ["for", "if", "if"]),
-    ("gts.WithFeatures()", ["for", "if", "if"]),
-    (".WriteSeq()", ["for", "if", "if:"]),
-    (".Flush()", ["for", "if", "if:"]),
-    (".Err()", ["if:"]),
-    (".Commit()", [])
-  ]),
-  ("query/queryFunc", [
-    (".TryCache()", ["if"]),
-    ("gts.Feature", []),
-    ("seqio.NewAutoScanner()", []),
-    (".Scan()", ["for:"]),
-    (".Value()", ["for"]),
-    (".Info()", ["for", "typeswitch:"]),
-    (".Features()", ["for"]),
-    (".Flush()", ["range", "if:"]),
-    (".Err()", ["if:"]),
-    (".Commit()", [])
-  ]),
-  ("repair/repairFunc", [
-    ("seqio.Detect()", []),
-    ("seqio.ToFileType()", ["if"]),
-    (".TryCache()", ["if"]),
-    ("seqio.NewAutoScanner()", []),
-    ("seqio.NewWriter()", []),
-    (".Scan()", ["for:"]),
-    (".Value()", ["for"]),
-    (".Features()", ["for"]),
-    ("gts.Repair()", ["for"]),
-    ("gts.WithFeatures()", ["for"]),
-    (".WriteSeq()", ["for", "if:"]),
-    (".Flush()", ["for", "if:"]),
-    (".Err()", ["if:"]),
-    (".Commit()", [])
-  ]),
-  ("reverse/reverseFunc", [
-    ("seqio.Detect()", []),
-    ("seqio.ToFileType()", ["if"]),
-    (".TryCache()", ["if"]),
-    ("seqio.NewAutoScanner()", []),
-    ("seqio.NewWriter()", []),
-    (".Scan()", ["for:"]),
-    (".Value()", ["for"]),
-    ("gts.Reverse()", ["for"]),
-    (".WriteSeq()", ["for", "if:"]),
-    (".Flush()", ["for", "if:"]),
-    (".Err()", ["if:"]),
-    (".Commit()", [])
-  ]),
-  ("rotate/rotateFunc", [
-    ("gts.AsLocator()", []),
-    ("seqio.Detect()", []),
-    ("seqio.ToFileType()", ["if"]),
-    (".TryCache()", ["if"]),
-    ("seqio.NewAutoScanner()", []),
-    ("seqio.NewWriter()", []),
-    (".Scan()", ["for:"]),
-    (".Value()", ["for"]),
-    ("gts.Rotate()", ["for", "if"]),
-    (".Head()", ["for", "if"]),
-    ("gts.WithTopology()", ["for"]),
-    ("gts.Circular", ["for"]),
-    (".WriteSeq()", ["for", "if:"]),
-    (".Flush()", ["for", "if:"]),
-    (".Err()", ["if:"]),
-    (".Commit()", [])
-  ]),
-  ("search/searchFunc", [
-    ("gts.Sequence", []),
-    ("gts.New()", ["switch", "case"]),
-    ("seqio.NewAutoScanner()", ["switch", "default"]),
-    (".Scan()", ["switch", "default", "for:"]),
-    (".Value()", ["switch", "default", "for"]),
-    ("seqio.Detect()", []),
-    ("seqio.ToFileType()", ["if"]),
-    ("gts.Props", []),
-    (".TryCache()", ["if"]),
-    ("gts.Match", []),
-    ("gts.Search", ["if"]),
-    ("seqio.NewAutoScanner()", []),
-    ("seqio.NewWriter()", []),
-    (".Scan()", ["for:"]),
-    (".Value()", ["for"]),
-    ("gts.Reverse()", ["for"]),
-    ("gts.Complement()", ["for"]),
-    ("gts.New()", ["for"]),
-    (".Bytes()", ["for"]),
-    (".Features()", ["for"]),
-    ("gts.Unpack()", ["for", "range", "range"]),
-    ("gts.NewFeature()", ["for", "range", "range"]),
-    ("gts.Range()", ["for", "range", "range"]),
-    (".Insert()", ["for", "range", "range"]),
-    ("gts.Unpack()", ["for", "range", "if", "range"]),
-    ("gts.Range()", ["for", "range", "if", "range"]),
-    (".Reverse()", ["for", "range", "if", "range"]),
-    ("gts.Len()", ["for", "range", "if", "range"]),
-    ("gts.Ranged", ["for", "range", "if", "range"]),
-    ("gts.NewFeature()", ["for", "range", "if", "range"]),
-    (".Complement()", ["for", "range", "if", "range"]),
-    (".Insert()", ["for", "range", "if", "range"]),
-    ("gts.WithFeatures()", ["for"]),
-    (".WriteSeq()", ["for", "if:"]),
-    (".Flush()", ["for", "if:"]),
-    (".Err()", ["if:"]),
-    (".Commit()", [])
-  ]),
-  ("select/selectFunc", [
-    ("gts.Filter", []),
-    ("gts.Selector()", ["range"]),
-    ("gts.Or()", []),
-    ("gts.Not()", ["if"]),
-    ("gts.Or()", []),
-    ("gts.Key()", []),
-    ("gts.And()", ["switch", "case"]),
-    ("gts.ForwardStrand", ["switch", "case"]),
-    ("gts.And()", ["switch", "case"]),
-    ("gts.ReverseStrand", ["switch", "case"]),
-    ("seqio.Detect()", []),
-    ("seqio.ToFileType()", ["if"]),
-    (".TryCache()", ["if"]),
-    ("seqio.NewAutoScanner()", []),
-    ("seqio.NewWriter()", []),
-    (".Scan()", ["for:"]),
-    (".Value()", ["for"]),
-    (".Features()", ["for"]),
-    (".Filter()", ["for"]),
-    ("gts.WithFeatures()", ["for"]),
-    (".WriteSeq()", ["for", "if:"]),
-    (".Flush()", ["for", "if:"]),
-    (".Err()", ["if:"]),
-    (".Commit()", [])
-  ]),
-  ("sort/sortFunc", [
-    ("seqio.Detect()", []),
-    ("seqio.ToFileType()", ["if"]),
-    (".TryCache()", ["if"]),
-    ("gts.Sequence", []),
-    ("seqio.NewAutoScanner()", []),
-    (".Scan()", ["for:"]),
-    (".Value()", ["for"]),
-    (".Reverse()", ["if"]),
-    ("seqio.NewWriter()", []),
-    (".WriteSeq()", ["range", "if:"]),
-    (".Flush()", ["range", "if:"]),
-    (".Err()", ["if:"]),
-    (".Commit()", [])
-  ]),
-  ("split/splitFunc", [
-    ("gts.AsLocator()", []),
-    ("seqio.Detect()", []),
-    ("seqio.ToFileType()", ["if"]),
-    (".TryCache()", ["if"]),
-    ("seqio.NewAutoScanner()", []),
-    ("seqio.NewWriter()", []),
-    (".Scan()", ["for:"]),
-    (".Value()", ["for"]),
-    ("gts.Linear", ["for"]),
-    (".WriteSeq()", ["for", "switch", "case", "if:"]),
-    ("gts.Circular", ["for", "switch"]),
-    ("gts.Rotate()", ["for", "switch", "case"]),
-    (".Head()", ["for", "switch", "case"]),
-    ("gts.WithTopology()", ["for", "switch", "case"]),
-    ("gts.Linear", ["for", "switch", "case"]),
-    (".WriteSeq()", ["for", "switch", "case", "if:"]),
-    (".Head()", ["for", "switch", "default", "range"]),
-    (".Tail()", ["for", "switch", "default", "range"]),
-    ("gts.Circular", ["for", "switch", "default", "if:"]),
-    ("gts.Rotate()", ["for", "switch", "default", "if"]),
-    ("gts.WithTopology()", ["for", "switch", "default", "if"]),
-    ("gts.Linear", ["for", "switch", "default", "if"]),
-    (".WriteSeq()", ["for", "switch", "default", "if", "if:"]),
-    ("gts.Circular", ["for", "switch", "default", "if:"]),
-    ("gts.Len()", ["for", "switch", "default", "else"]),
-    ("gts.Slice()", ["for", "switch", "default", "range"]),
-    ("gts.WithTopology()", ["for", "switch", "default", "range"]),
-    ("gts.Linear", ["for", "switch", "default", "range"]),
-    (".WriteSeq()", ["for", "switch", "default", "range", "if:"]),
-    (".Flush()", ["for", "if:"]),
-    (".Err()", ["if:"]),
-    (".Commit()", [])
-  ]),
-  ("summary/summaryFunc", [
-    (".TryCache()", ["if"]),
-    ("seqio.NewAutoScanner()", []),
-    (".Scan()", ["for:"]),
-    (".Value()", ["for"]),
-    (".Info()", ["for", "typeswitch:"]),
-    (".Bytes()", ["for", "range:"]),
-    (".Features()", ["for"]),
-    ("gts.Len()", ["for"]),
-    (".Flush()", ["for", "if:"]),
-    (".Err()", ["if:"]),
-    (".Commit()", [])
-  ])
 ]
 
 end Gts.Spec.Cmd
